@@ -29,8 +29,16 @@ def episodes(prop, tier, seed):
             out["sweep"] = (gen_shardedge.sweep(seed, 2000, 40, 40, stride=16), "verif")
             out["sweep-release"] = (gen_shardedge.sweep(seed + 1, 2000, 20, 24, stride=40), "release")
         else:
-            out["sweep"] = (gen_shardedge.sweep(seed, 2000, 400, 200), "verif")
-            out["sweep-release"] = (gen_shardedge.sweep(seed + 1, 2000, 400, 100, stride=3), "release")
+            # every n in 0..2000 (two halves), ~70 signatures per set-up here plus the
+            # ~150 boundary signatures per set-up of the TLC-exported scripts
+            # (batches of at most ~350 000 events: a trace shard must fit a 3 GB TLC heap)
+            a = gen_shardedge.sweep(seed, 2000, 300, 70, stride=2)
+            out["sweep-a"] = (a[:len(a) // 2], "verif")
+            out["sweep-b"] = (a[len(a) // 2:], "verif")
+            b = gen_shardedge.sweep(seed + 1, 2000, 300, 50, stride=2)
+            out["sweep-release-a"] = (b[:len(b) // 2], "release")
+            out["sweep-release-b"] = (b[len(b) // 2:], "release")
+            out["sweep-200"] = (gen_shardedge.sweep(seed + 2, 0, 60, 200), "verif")
     if prop == "C12":
         out["ood"] = (gen_shardedge.ood(seed, 300 if q else 3000), "verif")
         if not q:
